@@ -178,7 +178,7 @@ _WORLD = {
     'C13': ((1, 0, 6), (2, 0, 8)),
     'C15': ((2, 1, 4), (3, 2, 6)),
     'C16': ((2, 3, 4), (2, 4, 6)),
-    'C17': ((2, 2, 5), (2, 3, 7)),
+    'C17': ((2, 2, 4), (2, 3, 6)),
     'C18': ((2, 0, 4), (2, 0, 6)),
     'C19': ((2, 1, 4), (3, 1, 6)),
     'C20': ((2, 1, 3), (2, 2, 5)),
@@ -191,9 +191,14 @@ _WORLD_EXTRA = {
     'C08': ([(3, 0, 3)], []),
     'C19': ([(3, 0, 4), (2, 0, 6)], []),
     'C01': ([(3, 1, 4)], []),
+    'C17': ([(1, 2, 8)], [(1, 3, 10)]),      # one module, deeper: stop from inside a handler, restart, then deliveries
+    'C16': ([(1, 3, 5)], [(1, 4, 8)]),      # one module, deeper: handlers invoked by unstash that stash / unstash / stop again
 }
 _WORLD_EXTRA_PROFILE = {      # further profiles of harness/world.c run under the same property: [(quick, thorough)], each (profile, modules, deviations, depth)
     'C03': [(('C03E', 2, 0, 3), ('C03E', 2, 0, 5))],      # signal / path / pid events
+    'C13': [(('C13B', 1, 0, 5), ('C13B', 1, 0, 7))],      # batching and priorities on a module that also has a token bucket (refill ticks are internal timer events)
+    'C04': [(('C04F', 2, 1, 5), ('C04F', 2, 2, 6))],      # messages and pills in flight, re-entrant stop/deregister from the handler, final flush
+    'C20': [(('C20T', 1, 1, 5), ('C20T', 2, 2, 6))],      # the context tick: set / cleared at top level and from callbacks, also while the loop stops
     'C09': [(('C09S', 1, 0, 6), ('C09S', 1, 0, 8)),       # subscriptions alone (DUP topics, auto-free user data, replacement)
             (('C09X', 1, 0, 3), ('C09X', 1, 0, 4))],      # sources and subscriptions together
 }
